@@ -215,8 +215,8 @@ func (c *Ctx) Violate(findingKey, summary string, replay any) {
 	}
 	c.violCount++
 	grp := summary
-	if i := strings.IndexByte(summary, ' '); i > 0 {
-		grp = summary[:i]
+	if f := strings.Fields(summary); len(f) >= 2 { // kind word + subject
+		grp = f[0] + " " + f[1]
 	}
 	c.counters["violations/"+grp]++
 	if c.counters["violations/"+grp] > 4 || len(c.viol) >= 60 {
